@@ -67,7 +67,18 @@ ListRemoveOk  == /\ IsEvent("listremove") /\ Ev.res = "ok" /\ Observed /\ db' = 
 ListRemoveErr == /\ IsEvent("listremove") /\ Ev.res # "ok" /\ Observed /\ db' = db /\ sl' = sl /\ ~InList(sl, Ev.o, Ev.d)
 (* a database decoded from a well-formed stream is exactly the lists of that stream (C07) *)
 Load      == /\ IsEvent("load") /\ Ev.res = "ok" /\ Observed /\ db = <<>> /\ db' = Ev.want /\ sl' = sl
-AppendList == /\ IsEvent("appendlist") /\ Observed /\ db' = Append(db, sl) /\ sl'.type = "none"
+(* append-list: the list becomes a new last list - or (an implementation may merge) its entries that are not there yet join an existing *)
+(* list; either way every entry of the list is in the collection afterwards, the entries that were there keep their order, nothing else  *)
+(* appears, and the list equations hold (Observed)                                                                                       *)
+RECURSIVE SubSeqOf(_, _)
+SubSeqOf(a, b) == IF a = <<>> THEN TRUE ELSE IF b = <<>> THEN FALSE
+                  ELSE IF Head(a) = Head(b) THEN SubSeqOf(Tail(a), Tail(b)) ELSE SubSeqOf(a, Tail(b))
+Elems(s) == {s[i] : i \in 1..Len(s)}
+AppendList == /\ IsEvent("appendlist") /\ Observed /\ sl'.type = "none"
+              /\ \/ db' = Append(db, sl)
+                 \/ /\ Len(db') = Len(db) /\ SubSeqOf(Flat(db), Flat(db'))
+                    /\ Elems(Flat(db')) = Elems(Flat(db)) \cup Elems(FlatList(sl))
+                    /\ Len(Flat(db')) <= Len(Flat(db)) + Len(sl.entries)
 (* removing a whole list: exactly that list goes, or (the database does not hold it) an error and nothing changes *)
 RemoveListOk  == /\ IsEvent("removelist") /\ Ev.res = "ok" /\ Observed /\ sl' = sl
                  /\ \E k \in 1..Len(db) : db[k] = Ev.target /\ db' = Without(db, k)
